@@ -46,61 +46,89 @@ def apply(c):
                 groups.append(('ints', [fields[i]], 'out.write_all(&self.%s.' % fld))
                 i += 1
         n = len(groups)
-        # R9 on the tail call, with the final proof
+        # R9 on the tail call, with the final proof (main clause on the real buffer, window clause on every agreeing buffer)
         steps = dec_steps(fields, v='self')
         qdefs = ['                let q0 = vx_s0.len() as int;']
         fi = 0
-        fld_q = {}
         for gi, (gk, gf, anchor) in enumerate(groups):
             for (kind, fld) in gf:
-                fld_q[fld] = fi
                 qdefs.append('                let q%d = q%d + %s;' % (fi + 1, fi, len_term(kind, fld) if kind not in ('name',) else '(vx_s%d.len() - vx_s%d.len())' % (gi + 1, gi)))
                 fi += 1
-        final = ['        proof {', '            if vx_r is Ok {', '                lemma_pow256_vals();', '                let m = io_buf(out);', '                let vx_s%d = m;' % n]
+
+        def field_asserts(B, M, ind):
+            """decoder conjuncts of every field on buffer M, from the per-step facts on the buffers B(k) (prefixes of M)"""
+            out = []
+            fi = 0
+            for gi, (gk, gf, anchor) in enumerate(groups):
+                for (kind, fld) in gf:
+                    q = 'q%d' % fi
+                    cond = re.sub(r'\bdata\b', M, steps[fi][0])
+                    cond = re.sub(r'\bq\b', q, cond)
+                    x = 'self.%s' % fld
+                    hints = []
+                    bk = B(gi + 1)
+                    if kind == 'name':
+                        hints.append('let x = %s.subrange(%s.len() as int, %s.len() as int);' % (M, bk, M))
+                        hints.append('assert(%s =~= %s + x);' % (M, bk))
+                        hints.append('lemma_append_stable(%s, x, %s, 0); lemma_inplace_append_stable(%s, x, %s, 0);' % (bk, q, bk, q))
+                        cond += ' && %s + inplace_len(%s, %s) == q%d' % (q, M, q, fi + 1)
+                    elif kind == 'cstr':
+                        hints.append('assert(%s[%s] == %s[%s]) by { assert(%s.subrange(0, %s.len() as int)[%s] == %s[%s]); }' % (M, q, bk, q, M, bk, q, bk, q))
+                        hints.append('assert(%s.subrange(%s + 1, q%d) =~= %s.subrange(%s + 1, q%d)) by { assert forall|j: int| %s + 1 <= j < q%d implies %s[j] == %s[j] by { assert(%s.subrange(0, %s.len() as int)[j] == %s[j]); } }'
+                                     % (M, q, fi + 1, bk, q, fi + 1, q, fi + 1, M, bk, M, bk, bk))
+                        cond += ' && %s + 1 + %s[%s] == q%d' % (q, M, q, fi + 1)
+                    else:
+                        nb = 1 if kind == 'u8' else INT_WIDTH[kind]
+                        val = 'i32_bits(%s)' % x if kind == 'i32' else '%s as nat' % x
+                        if kind != 'u8':
+                            hints.append('lemma_be_enc(%s, %d);' % (val, nb))
+                        hints.append('assert(%s.subrange(%s, %s + %d) =~= %s) by { assert forall|j: int| 0 <= j < %d implies %s[%s + j] == %s[j] by { assert(%s.subrange(0, %s.len() as int)[%s + j] == %s[%s + j]); } }'
+                                     % (M, q, q, nb, enc_of(kind, fld), nb, M, q, enc_of(kind, fld), M, bk, q, bk, q))
+                    out.append(ind + 'assert(%s) by { %s }' % (cond, ' '.join(hints)))
+                    fi += 1
+            out.append(ind + 'assert(q%d == %s.len());' % (fi, M))
+            return out
+
+        I = '                '
+        final = ['        proof {', '            if vx_r is Ok {', I + 'lemma_pow256_vals();', I + 'let vx_m = io_buf(out);', I + 'let vx_s%d = vx_m;' % n, I + 'let vx_t%d = name_refs@;' % n]
         final += qdefs
-        # prefix chain
         for gi in range(n - 1, -1, -1):
-            final.append('                assert(m.subrange(0, vx_s%d.len() as int) =~= vx_s%d) by { assert(vx_s%d.subrange(0, vx_s%d.len() as int) =~= vx_s%d); assert(m.subrange(0, vx_s%d.len() as int) =~= vx_s%d); }'
+            final.append(I + 'assert(vx_m.subrange(0, vx_s%d.len() as int) =~= vx_s%d) by { assert(vx_s%d.subrange(0, vx_s%d.len() as int) =~= vx_s%d); assert(vx_m.subrange(0, vx_s%d.len() as int) =~= vx_s%d); }'
                          % (gi, gi, gi + 1, gi, gi, gi + 1, gi + 1))
-        fi = 0
-        for gi, (gk, gf, anchor) in enumerate(groups):
-            for (kind, fld) in gf:
-                q = 'q%d' % fi
-                cond = re.sub(r'\bdata\b', 'm', steps[fi][0])
-                cond = re.sub(r'\bq\b', q, cond)
-                x = 'self.%s' % fld
-                hints = []
-                if kind == 'name':
-                    hints.append('let x = m.subrange(vx_s%d.len() as int, m.len() as int);' % (gi + 1))
-                    hints.append('assert(m =~= vx_s%d + x);' % (gi + 1))
-                    hints.append('lemma_append_stable(vx_s%d, x, %s, 0); lemma_inplace_append_stable(vx_s%d, x, %s, 0);' % (gi + 1, q, gi + 1, q))
-                    cond += ' && %s + inplace_len(m, %s) == q%d' % (q, q, fi + 1)
-                elif kind == 'cstr':
-                    hints.append('assert(m[%s] == vx_s%d[%s]) by { assert(m.subrange(0, vx_s%d.len() as int)[%s] == vx_s%d[%s]); }' % (q, gi + 1, q, gi + 1, q, gi + 1, q))
-                    hints.append('assert(m.subrange(%s + 1, q%d) =~= vx_s%d.subrange(%s + 1, q%d)) by { assert forall|j: int| %s + 1 <= j < q%d implies m[j] == vx_s%d[j] by { assert(m.subrange(0, vx_s%d.len() as int)[j] == vx_s%d[j]); } }'
-                                 % (q, fi + 1, gi + 1, q, fi + 1, q, fi + 1, gi + 1, gi + 1, gi + 1))
-                    cond += ' && %s + 1 + m[%s] == q%d' % (q, q, fi + 1)
-                else:
-                    nb = 1 if kind == 'u8' else INT_WIDTH[kind]
-                    val = 'i32_bits(%s)' % x if kind == 'i32' else '%s as nat' % x
-                    if kind != 'u8':
-                        hints.append('lemma_be_enc(%s, %d);' % (val, nb))
-                    hints.append('assert(m.subrange(%s, %s + %d) =~= %s) by { assert forall|j: int| 0 <= j < %d implies m[%s + j] == %s[j] by { assert(m.subrange(0, vx_s%d.len() as int)[%s + j] == vx_s%d[%s + j]); } }'
-                                 % (q, q, nb, enc_of(kind, fld), nb, q, enc_of(kind, fld), gi + 1, q, gi + 1, q))
-                final.append('                assert(%s) by { %s }' % (cond, ' '.join(hints)))
-                fi += 1
-        final.append('                assert(q%d == m.len());' % fi)
-        # table validity if the last statement was a plain write
+        final += field_asserts(lambda k: 'vx_s%d' % k, 'vx_m', I)
         if groups[-1][0] == 'ints':
             encs = ' + '.join(enc_of(k2, f2) for (k2, f2) in groups[-1][1])
-            final.append('                assert(m =~= vx_s%d + (%s));' % (n - 1, encs))
-            final.append('                lemma_refs_append(name_refs@, vx_s%d, %s);' % (n - 1, encs))
+            final.append(I + 'assert(vx_m =~= vx_s%d + (%s));' % (n - 1, encs))
+            final.append(I + 'lemma_refs_append(name_refs@, vx_s%d, %s);' % (n - 1, encs))
+        # ---- window clause
+        J = I + '    '
+        final.append(I + 'assert forall|wa: int, mp: Seq<u8>| 0 <= wa && wa + 2 <= vx_s0.len() && #[trigger] agree_out(vx_m, mp, wa) && refs_ok(vx_t0, mp.subrange(0, vx_s0.len() as int))')
+        final.append(I + '    implies refs_ok(name_refs@, mp) && Self::wf_cdec(mp, vx_s0.len() as int, self, mp.len() as int) by {')
+        for k in range(0, n):
+            final.append(J + 'let vx_b%d = mp.subrange(0, vx_s%d.len() as int);' % (k, k))
+        final.append(J + 'let vx_b%d = mp;' % n)
+        final.append(J + 'lemma_agree_prefix(vx_m, mp, wa, vx_m.len() as int); assert(mp.subrange(0, mp.len() as int) =~= mp);')
+        for k in range(0, n + 1):
+            final.append(J + 'lemma_agree_prefix(vx_m, mp, wa, vx_s%d.len() as int); assert(agree_out(vx_s%d, vx_b%d, wa));' % (k, k, k))
+            if k > 0:
+                final.append(J + 'assert(vx_b%d.subrange(0, vx_s%d.len() as int) =~= vx_b%d);' % (k, k - 1, k - 1))
+        for gi, (gk, gf, anchor) in enumerate(groups):
+            k = gi + 1
+            if gk == 'ints':
+                encs = ' + '.join(enc_of(k2, f2) for (k2, f2) in gf)
+                final.append(J + 'assert(vx_b%d =~= vx_b%d + (%s)) by { lemma_agree_suffix(vx_s%d, %s, vx_b%d, wa); }' % (k, k - 1, encs, k - 1, encs, k))
+                final.append(J + 'lemma_refs_append(vx_t%d, vx_b%d, %s); assert(refs_ok(vx_t%d, vx_b%d));' % (k - 1, k - 1, encs, k, k))
+            else:
+                # the callee's window clause, instantiated at (wa, vx_b<k>) through its trigger agree_out(vx_s<k>, vx_b<k>, wa)
+                final.append(J + 'assert(refs_ok(vx_t%d, vx_b%d));' % (k, k))
+        final += field_asserts(lambda k: 'vx_b%d' % k, 'mp', J)
+        final.append(I + '}')
         final += ['            }', '        }']
         c.bind_tail(rel, h, W, '\n'.join(final))
         # snapshots: s0 at entry, s_k after statement k (k < n); hints after plain writes
-        c.contract(rel, h, W, "", pre_body="\n        let ghost vx_s0 = io_buf(out);\n")
+        c.contract(rel, h, W, "", pre_body="\n        let ghost vx_s0 = io_buf(out);\n        let ghost vx_t0 = name_refs@;\n")
         for gi, (gk, gf, anchor) in enumerate(groups[:-1]):
-            g = '        let ghost vx_s%d = io_buf(out);' % (gi + 1)
+            g = '        let ghost vx_s%d = io_buf(out);\n        let ghost vx_t%d = name_refs@;' % (gi + 1, gi + 1)
             if gk == 'ints':
                 encs = ' + '.join(enc_of(k2, f2) for (k2, f2) in gf)
                 g += '\n        proof { assert(vx_s%d =~= vx_s%d + (%s)); lemma_refs_append(name_refs@, vx_s%d, %s); }' % (gi + 1, gi, encs, gi, encs)
